@@ -58,6 +58,7 @@ type Record struct {
 type Options struct {
 	MaxForeign      int  // foreign tags per directory (default 6)
 	BigPending      bool // aim for 60..84 pending out-of-line tags
+	HeavyWriter     bool // writer-like block order with 20-35 out-of-line IFD0 values consumed before a sub-directory that pushes the pending list to 70..84
 	ExtSubSecDigits bool // sub-second strings of 1,2,4..6 digits (main: 3 digits)
 	ExtModelFirst   bool // Model value placed before Make value
 	NoGPS           bool
@@ -720,12 +721,15 @@ func GenExif(rt *rapid.T, o Options) *ExifFile {
 	}
 	f.FirstIFD = first
 	padMode := rapid.IntRange(0, 2).Draw(rt, "padmode")
-	if o.BigPending {
+	if o.BigPending || o.HeavyWriter {
 		padMode = 0
 	}
 	blockMode := rapid.IntRange(0, 4).Draw(rt, "blockmode") // 0 = writer-like (FIFO), 1 = LIFO, 2 = random, 3 = tables first, 4 = values first
 	if o.BigPending {
 		blockMode = 3
+	}
+	if o.HeavyWriter {
+		blockMode = 0
 	}
 	pick := func(isTable []bool) int {
 		n := len(isTable)
@@ -792,6 +796,45 @@ func GenExif(rt *rapid.T, o Options) *ExifFile {
 			f.Foreign++
 			f.Enc = Encode(ifd0, first, pick, pad, trailing)
 		}
+	}
+	if o.HeavyWriter && dirs[1].d != nil {
+		// Many IFD0 values are consumed before the Exif directory is entered (their slots must be given back:
+		// the documented limit is on tags pending at one moment, not on tags ever queued), then the Exif
+		// directory brings the pending list close to the limit.
+		add := func(d *Dir, tag uint16) {
+			if usedBy[d][tag] || len(d.Entries) >= lim {
+				return
+			}
+			usedBy[d][tag] = true
+			d.Entries = append(d.Entries, Entry{Tag: tag, V: Long(uint32(tag), 0xfeedface), Foreign: true})
+			d.Shuffle = nil
+			sortEntries(d)
+			f.Foreign++
+		}
+		for i, n := 0, rapid.IntRange(20, 35).Draw(rt, "heavy.ifd0"); i < n; i++ {
+			add(ifd0, uint16(0x5000+i)) // below 0x8769: written before the Exif directory
+		}
+		f.Enc = Encode(ifd0, first, pick, pad, trailing)
+		target := rapid.SampledFrom([]int{84, 84, 83, 80, 76, 70}).Draw(rt, "heavy.target")
+		for guard := 0; f.Enc.PendingHW < target && guard < 200; guard++ {
+			before := len(dirs[1].d.Entries)
+			add(dirs[1].d, uint16(0x5100+guard))
+			if len(dirs[1].d.Entries) == before {
+				break
+			}
+			f.Enc = Encode(ifd0, first, pick, pad, trailing)
+		}
+		for f.Enc.PendingHW > 84 && len(dirs[1].d.Entries) > 0 { // never beyond the documented limit
+			es := dirs[1].d.Entries
+			for i := len(es) - 1; i >= 0; i-- {
+				if es[i].Foreign && es[i].Tag >= 0x5100 {
+					dirs[1].d.Entries = append(es[:i], es[i+1:]...)
+					break
+				}
+			}
+			f.Enc = Encode(ifd0, first, pick, pad, trailing)
+		}
+		f.Classes = append(f.Classes, "heavy-writer")
 	}
 	if o.Split {
 		// the same record as cameras write CR3 metadata: one TIFF block per directory
